@@ -19,67 +19,191 @@ func init() {
 
 func runR119(c *Ctx) {
 	p := c.P
-	fn := p.Func("", "orFrames")
-	if fn == nil {
-		// located structurally: a function of the root package with three *QFrame parameters
-		for _, f := range p.FuncsIn("") {
-			if len(f.Params) == 3 && f.Parent() == nil {
-				all := true
-				for _, prm := range f.Params {
-					ptr, ok := prm.Type().(*types.Pointer)
-					if !ok {
-						all = false
-						break
+	// The merge loops are located structurally: a loop of a root-package function that ranges over an index.Int
+	// (the original frame's rows), carries a result index that it appends to, and one cursor per other index
+	// (an int compared with that index's length, or the not yet consumed rest of that index). The loop with two
+	// sides must be reachable from OrClause.filter (union), the loop with one side from NotClause.filter
+	// (complement) - in the method itself or in a helper it calls.
+	reach := func(root *ssa.Function) []*ssa.Function {
+		if root == nil {
+			return nil
+		}
+		out := []*ssa.Function{root}
+		seen := map[*ssa.Function]bool{root: true}
+		level := []*ssa.Function{root}
+		for d := 0; d < 3; d++ {
+			var next []*ssa.Function
+			for _, f := range level {
+				eachInstr(f, func(in ssa.Instruction) {
+					if call, ok := in.(*ssa.Call); ok {
+						if g := call.Call.StaticCallee(); g != nil && g.Pkg == root.Pkg && g.Blocks != nil && !seen[g] && g.Signature.Recv() == nil {
+							seen[g] = true
+							out = append(out, g)
+							next = append(next, g)
+						}
 					}
-					if n, ok := ptr.Elem().(*types.Named); !ok || n.Obj().Name() != "QFrame" {
-						all = false
+				})
+			}
+			level = next
+		}
+		return out
+	}
+	type found struct {
+		fn    *ssa.Function
+		orig  ssa.Value
+		sides []ssa.Value
+	}
+	find := func(root *ssa.Function, nSides int) *found {
+		for _, f := range reach(root) {
+			if orig, sides := mergeLoopShape(f); orig != nil && len(sides) == nSides {
+				return &found{f, orig, sides}
+			}
+		}
+		return nil
+	}
+	if m := find(p.Func("", "OrClause.filter"), 2); m != nil {
+		mergeLoop(c, m.fn, m.orig, m.sides, func(st []int) bool { return st[0] == 1 || st[1] == 1 }, "some side's head equals it")
+	} else {
+		c.undecided("qframe.OrClause.filter|loop", "-", "no loop that walks the original index with one cursor into each of two other indexes is reachable from OrClause.filter")
+	}
+	if m := find(p.Func("", "NotClause.filter"), 1); m != nil {
+		mergeLoop(c, m.fn, m.orig, m.sides, func(st []int) bool { return st[0] != 1 }, "the sub-clause's head does not equal it")
+	} else {
+		c.undecided("qframe.NotClause.filter|loop", "-", "no loop that walks the original index with one cursor into the sub-clause's index is reachable from NotClause.filter")
+	}
+}
+
+// mergeOwner: the parameter / local a value is read from.
+func mergeOwner(v ssa.Value) ssa.Value {
+	for d := 0; d < 8 && v != nil; d++ {
+		switch t := v.(type) {
+		case *ssa.Parameter:
+			return t
+		case *ssa.Alloc:
+			return t
+		case *ssa.UnOp:
+			v = t.X
+		case *ssa.FieldAddr:
+			v = t.X
+		case *ssa.Field:
+			v = t.X
+		case *ssa.IndexAddr:
+			v = t.X
+		case *ssa.Phi:
+			return t
+		default:
+			return nil
+		}
+	}
+	return nil
+}
+
+func mergeLenArg(v ssa.Value) ssa.Value {
+	call, ok := v.(*ssa.Call)
+	if !ok {
+		return nil
+	}
+	if builtinName(call) == "len" {
+		return call.Call.Args[0]
+	}
+	if o := calleeObj(call); o != nil && o.Name() == "Len" && len(call.Call.Args) == 1 && isIntIndexType(call.Call.Args[0].Type()) {
+		return call.Call.Args[0]
+	}
+	return nil
+}
+
+// mergeLoopShape: (owner of the index the loop ranges over, owners of the indexes it keeps a cursor into),
+// or nil when fn has no such loop.
+func mergeLoopShape(fn *ssa.Function) (ssa.Value, []ssa.Value) {
+	for _, li := range loopsOf(fn) {
+		if li.base == nil || !isIntIndexType(li.base.Type()) {
+			continue
+		}
+		orig := mergeOwner(li.base)
+		if orig == nil {
+			continue
+		}
+		var sides []ssa.Value
+		hasResult := false
+		for _, in := range li.header.Instrs {
+			phi, ok := in.(*ssa.Phi)
+			if !ok {
+				break
+			}
+			if isIntIndexType(phi.Type()) {
+				if side := restCursorSide(phi, li); side != nil {
+					if side != orig {
+						sides = append(sides, side)
 					}
+				} else {
+					hasResult = true
 				}
-				if all {
-					fn = f
+				continue
+			}
+			for _, r := range *phi.Referrers() {
+				if cmp, ok := r.(*ssa.BinOp); ok && cmp.Op == token.LSS && cmp.X == ssa.Value(phi) {
+					if la := mergeLenArg(cmp.Y); la != nil && isIntIndexType(la.Type()) {
+						if o := mergeOwner(la); o != nil && o != orig {
+							sides = append(sides, o)
+						}
+					}
 				}
 			}
 		}
-	}
-	if fn == nil || len(fn.Params) != 3 {
-		c.undecided("qframe.orFrames", "-", "the function that unions two filter results was not found")
-	} else {
-		mergeLoop(c, fn, fn.Params[0], []ssa.Value{fn.Params[1], fn.Params[2]}, func(st []int) bool { return st[0] == 1 || st[1] == 1 },
-			"some side's head equals it")
-	}
-	// the complement of a sub-clause's result (NotClause): one cursor, rows appended when the head does NOT match
-	nf := p.Func("", "NotClause.filter")
-	if nf == nil || len(nf.Params) != 2 {
-		c.undecided("qframe.NotClause.filter", "-", "not found")
-		return
-	}
-	// the frame parameter is spilled to a local; the sub-clause's result is the local holding the result of the
-	// dynamic filter call
-	var origObj, sideObj ssa.Value
-	eachInstr(nf, func(in ssa.Instruction) {
-		st, ok := in.(*ssa.Store)
-		if !ok {
-			return
+		if hasResult && len(sides) > 0 {
+			return orig, sides
 		}
-		al, ok := st.Addr.(*ssa.Alloc)
-		if !ok {
-			return
-		}
-		if st.Val == ssa.Value(nf.Params[1]) {
-			origObj = al
-		}
-		if call, ok := st.Val.(*ssa.Call); ok && call.Call.IsInvoke() && call.Call.Method.Name() == "filter" {
-			sideObj = al
-		}
-	})
-	if origObj == nil {
-		origObj = nf.Params[1]
 	}
-	if sideObj == nil {
-		c.undecided(fname(nf)+"|loop", p.pos(nf.Pos()), "the local holding the sub-clause's result was not found")
-		return
+	return nil, nil
+}
+
+// restCursorSide: phi is a cursor of the form `rest := side.index; ...; rest = rest[1:]` - its edge from outside
+// the loop is a whole index (owner returned) and its edges from inside are the phi itself or phi[1:].
+func restCursorSide(phi *ssa.Phi, li loopInfo) ssa.Value {
+	var side ssa.Value
+	for i, e := range phi.Edges {
+		pred := phi.Block().Preds[i]
+		if !inLoop(li, pred) {
+			if _, isMk := e.(*ssa.MakeSlice); isMk {
+				return nil
+			}
+			side = mergeOwner(e)
+			if side == nil {
+				return nil
+			}
+			continue
+		}
+		if !restAdvance(e, phi, 0) {
+			return nil
+		}
 	}
-	mergeLoop(c, nf, origObj, []ssa.Value{sideObj}, func(st []int) bool { return st[0] != 1 }, "the sub-clause's head does not equal it")
+	return side
+}
+
+// restAdvance: v is phi, phi[1:], or a phi of those.
+func restAdvance(v ssa.Value, phi *ssa.Phi, d int) bool {
+	if d > 4 {
+		return false
+	}
+	if v == ssa.Value(phi) {
+		return true
+	}
+	switch t := v.(type) {
+	case *ssa.Slice:
+		if t.X == ssa.Value(phi) && t.High == nil && t.Low != nil {
+			if k, ok := constInt(t.Low); ok && k == 1 {
+				return true
+			}
+		}
+	case *ssa.Phi:
+		for _, e := range t.Edges {
+			if !restAdvance(e, phi, d+1) {
+				return false
+			}
+		}
+		return len(t.Edges) > 0
+	}
+	return false
 }
 
 // mergeLoop checks the single loop of fn that walks orig's index with one cursor per side.
@@ -95,27 +219,6 @@ func mergeLoop(c *Ctx, fn *ssa.Function, orig ssa.Value, sides []ssa.Value, want
 		}
 		return v.Name()
 	}
-	ownerOf := func(v ssa.Value) ssa.Value {
-		for d := 0; d < 8 && v != nil; d++ {
-			switch t := v.(type) {
-			case *ssa.Parameter:
-				return t
-			case *ssa.Alloc:
-				return t
-			case *ssa.UnOp:
-				v = t.X
-			case *ssa.FieldAddr:
-				v = t.X
-			case *ssa.Field:
-				v = t.X
-			case *ssa.IndexAddr:
-				v = t.X
-			default:
-				return nil
-			}
-		}
-		return nil
-	}
 	isSide := func(o ssa.Value) bool {
 		for _, s := range sides {
 			if s == o {
@@ -124,24 +227,10 @@ func mergeLoop(c *Ctx, fn *ssa.Function, orig ssa.Value, sides []ssa.Value, want
 		}
 		return false
 	}
-	// len(x) or x.Len() of an index
-	lenArg := func(v ssa.Value) ssa.Value {
-		call, ok := v.(*ssa.Call)
-		if !ok {
-			return nil
-		}
-		if builtinName(call) == "len" {
-			return call.Call.Args[0]
-		}
-		if o := calleeObj(call); o != nil && o.Name() == "Len" && len(call.Call.Args) == 1 && isIntIndexType(call.Call.Args[0].Type()) {
-			return call.Call.Args[0]
-		}
-		return nil
-	}
 	var loop *loopInfo
 	for _, li := range loopsOf(fn) {
 		li := li
-		if li.base != nil && ownerOf(li.base) == orig && isIntIndexType(li.base.Type()) {
+		if li.base != nil && mergeOwner(li.base) == orig && isIntIndexType(li.base.Type()) {
 			loop = &li
 		}
 	}
@@ -150,7 +239,13 @@ func mergeLoop(c *Ctx, fn *ssa.Function, orig ssa.Value, sides []ssa.Value, want
 		return
 	}
 	hdr := loop.header
-	cursor := map[ssa.Value]*ssa.Phi{}
+	// a cursor is an int position into the side's index, or the not yet consumed rest of that index
+	type cur struct {
+		phi  *ssa.Phi
+		rest bool
+	}
+	cursor := map[ssa.Value]*cur{}
+	byPhi := map[*ssa.Phi]ssa.Value{}
 	var result *ssa.Phi
 	for _, in := range hdr.Instrs {
 		phi, ok := in.(*ssa.Phi)
@@ -158,14 +253,20 @@ func mergeLoop(c *Ctx, fn *ssa.Function, orig ssa.Value, sides []ssa.Value, want
 			break
 		}
 		if isIntIndexType(phi.Type()) {
-			result = phi
+			if side := restCursorSide(phi, *loop); side != nil && isSide(side) {
+				cursor[side] = &cur{phi, true}
+				byPhi[phi] = side
+			} else {
+				result = phi
+			}
 			continue
 		}
 		for _, r := range *phi.Referrers() {
 			if cmp, ok := r.(*ssa.BinOp); ok && cmp.Op == token.LSS && cmp.X == ssa.Value(phi) {
-				if la := lenArg(cmp.Y); la != nil {
-					if o := ownerOf(la); o != nil && isSide(o) {
-						cursor[o] = phi
+				if la := mergeLenArg(cmp.Y); la != nil {
+					if o := mergeOwner(la); o != nil && isSide(o) {
+						cursor[o] = &cur{phi, false}
+						byPhi[phi] = o
 					}
 				}
 			}
@@ -183,8 +284,15 @@ func mergeLoop(c *Ctx, fn *ssa.Function, orig ssa.Value, sides []ssa.Value, want
 				continue
 			}
 			for _, s := range sides {
-				if k, isK := constInt(cursor[s].Edges[i]); !isK || k != 0 {
-					bad = append(bad, fmt.Sprintf("the cursor into %s starts at %s", nameOf(s), describe(cursor[s].Edges[i])))
+				cu := cursor[s]
+				if cu.rest {
+					if _, isSlice := cu.phi.Edges[i].(*ssa.Slice); isSlice {
+						bad = append(bad, fmt.Sprintf("the unconsumed rest of %s does not start as the whole index", nameOf(s)))
+					}
+					continue
+				}
+				if k, isK := constInt(cu.phi.Edges[i]); !isK || k != 0 {
+					bad = append(bad, fmt.Sprintf("the cursor into %s starts at %s", nameOf(s), describe(cu.phi.Edges[i])))
 				}
 			}
 			if mk, ok := result.Edges[i].(*ssa.MakeSlice); ok {
@@ -198,7 +306,7 @@ func mergeLoop(c *Ctx, fn *ssa.Function, orig ssa.Value, sides []ssa.Value, want
 		if len(bad) > 0 {
 			c.bad(key, p.pos(fn.Pos()), strings.Join(bad, "; "))
 		} else {
-			c.ok(key, p.pos(fn.Pos()), "every cursor starts at 0, the result starts empty")
+			c.ok(key, p.pos(fn.Pos()), "every cursor starts at the beginning of its index, the result starts empty")
 		}
 	}
 	isRow := func(v ssa.Value) bool {
@@ -207,7 +315,7 @@ func mergeLoop(c *Ctx, fn *ssa.Function, orig ssa.Value, sides []ssa.Value, want
 			return false
 		}
 		ia, ok := ld.X.(*ssa.IndexAddr)
-		return ok && ia.Index == loop.key && ownerOf(ia.X) == orig
+		return ok && ia.Index == loop.key && mergeOwner(ia.X) == orig
 	}
 	headOf := func(v ssa.Value) ssa.Value {
 		ld, ok := v.(*ssa.UnOp)
@@ -218,8 +326,17 @@ func mergeLoop(c *Ctx, fn *ssa.Function, orig ssa.Value, sides []ssa.Value, want
 		if !ok {
 			return nil
 		}
-		o := ownerOf(ia.X)
-		if o == nil || cursor[o] == nil || ia.Index != ssa.Value(cursor[o]) {
+		// rest[0]
+		if ph, ok := ia.X.(*ssa.Phi); ok {
+			if side, ok := byPhi[ph]; ok && cursor[side].rest {
+				if k, isK := constInt(ia.Index); isK && k == 0 {
+					return side
+				}
+			}
+			return nil
+		}
+		o := mergeOwner(ia.X)
+		if o == nil || cursor[o] == nil || cursor[o].rest || ia.Index != ssa.Value(cursor[o].phi) {
 			return nil
 		}
 		return o
@@ -252,18 +369,34 @@ func mergeLoop(c *Ctx, fn *ssa.Function, orig ssa.Value, sides []ssa.Value, want
 			if iff, ok := hdr.Instrs[len(hdr.Instrs)-1].(*ssa.If); ok && v == iff.Cond {
 				return true, true
 			}
-			if la := lenArg(b.Y); la != nil && (b.Op == token.LSS || b.Op == token.GEQ) {
-				if o := ownerOf(la); o != nil && cursor[o] != nil && b.X == ssa.Value(cursor[o]) {
+			if la := mergeLenArg(b.Y); la != nil && (b.Op == token.LSS || b.Op == token.GEQ) {
+				if o := mergeOwner(la); o != nil && cursor[o] != nil && !cursor[o].rest && b.X == ssa.Value(cursor[o].phi) {
 					return (st[o] != 0) == (b.Op == token.LSS), true
+				}
+			}
+			// len(rest) compared with a constant
+			if la := mergeLenArg(b.X); la != nil {
+				if ph, ok := pe.resolve(la).(*ssa.Phi); ok {
+					if side, ok := byPhi[ph]; ok && cursor[side].rest {
+						if k, isK := constInt(b.Y); isK {
+							nonEmpty := st[side] != 0
+							switch {
+							case b.Op == token.GTR && k == 0, b.Op == token.NEQ && k == 0, b.Op == token.GEQ && k == 1:
+								return nonEmpty, true
+							case b.Op == token.EQL && k == 0, b.Op == token.LEQ && k == 0, b.Op == token.LSS && k == 1:
+								return !nonEmpty, true
+							}
+						}
+					}
 				}
 			}
 			if b.Op == token.EQL || b.Op == token.NEQ {
 				var o ssa.Value
 				switch {
-				case isRow(b.Y):
-					o = headOf(b.X)
-				case isRow(b.X):
-					o = headOf(b.Y)
+				case isRow(pe.resolve(b.Y)):
+					o = headOf(pe.resolve(b.X))
+				case isRow(pe.resolve(b.X)):
+					o = headOf(pe.resolve(b.Y))
 				}
 				if o != nil {
 					if st[o] == 0 {
@@ -289,13 +422,23 @@ func mergeLoop(c *Ctx, fn *ssa.Function, orig ssa.Value, sides []ssa.Value, want
 			}
 		}
 		for _, s := range sides {
-			nv := pe.resolve(cursor[s].Edges[pi])
+			cu := cursor[s]
+			nv := pe.resolve(cu.phi.Edges[pi])
 			adv := int64(-1)
-			if nv == ssa.Value(cursor[s]) {
+			switch {
+			case nv == ssa.Value(cu.phi):
 				adv = 0
-			} else if add, ok := nv.(*ssa.BinOp); ok && add.Op == token.ADD && add.X == ssa.Value(cursor[s]) {
-				if k, isK := constInt(add.Y); isK {
-					adv = k
+			case cu.rest:
+				if sl, ok := nv.(*ssa.Slice); ok && pe.resolve(sl.X) == ssa.Value(cu.phi) && sl.High == nil && sl.Low != nil {
+					if k, isK := constInt(sl.Low); isK {
+						adv = k
+					}
+				}
+			default:
+				if add, ok := nv.(*ssa.BinOp); ok && add.Op == token.ADD && add.X == ssa.Value(cu.phi) {
+					if k, isK := constInt(add.Y); isK {
+						adv = k
+					}
 				}
 			}
 			want := int64(0)
